@@ -1,1 +1,279 @@
 package services
+
+// Binding T for spec/ServiceIsolation (property C42).
+//
+// Batches of concurrent service requests with distinct URL parts, parameters,
+// bodies, headers and users run through the real router.ServeHTTP and the real
+// ServiceHandler, with cache flushes thrown in, under a GOMAXPROCS sweep and
+// with scheduling points injected into the bytecode dispatch loop (verifYield).
+// The hooks record one event per critical section of the service cache (called
+// under serviceCacheMutex, so their order is the order of the critical sections)
+// and per gate of ServiceHandler; the response every client received is recorded
+// when ServeHTTP returns.  TLC validates the log against the specification
+// (ServiceIsolation_Trace); nothing here decides what is right.
+
+import (
+	"fmt"
+	"math/rand"
+	"net/http/httptest"
+	"runtime"
+	"sync"
+	"sync/atomic"
+	"testing"
+	"time"
+
+	"github.com/tucats/ego/internal/language/bytecode"
+	"github.com/tucats/ego/internal/language/symbols"
+	"github.com/tucats/ego/internal/router"
+)
+
+type c42Rec struct {
+	mu     sync.Mutex
+	events []map[string]any
+	bySess map[int]string
+}
+
+func (c *c42Rec) add(e map[string]any) {
+	c.mu.Lock()
+	c.events = append(c.events, e)
+	c.mu.Unlock()
+}
+
+func (c *c42Rec) req(session int) string {
+	c.mu.Lock()
+	defer c.mu.Unlock()
+
+	return c.bySess[session]
+}
+
+func c42InstallRecorder(rec *c42Rec, pattern string) {
+	VerifGate = func(point string, session int, table *symbols.SymbolTable) {
+		switch point {
+		case "acquire":
+			id := c42ReqID(table)
+
+			rec.mu.Lock()
+			rec.bySess[session] = id
+			rec.events = append(rec.events, map[string]any{"ev": "Enter", "r": id})
+			rec.mu.Unlock()
+		case "finish":
+			rec.add(map[string]any{"ev": "Run", "r": c42ReqID(table)})
+		}
+	}
+	// called with serviceCacheMutex held
+	VerifEvent = func(op string, session int, endpoint string, table *symbols.SymbolTable) {
+		switch op {
+		case "lookup":
+			rec.add(map[string]any{"ev": "Lookup", "r": rec.req(session)})
+		case "reads":
+			rec.add(map[string]any{"ev": "ReadS", "r": rec.req(session), "had": table != nil})
+		case "add":
+			rec.add(map[string]any{"ev": "Add", "r": rec.req(session)})
+		case "errdel":
+			rec.add(map[string]any{"ev": "RunErr", "r": rec.req(session)})
+		case "finished":
+			item, ok := ServiceCache[endpoint]
+			rec.add(map[string]any{"ev": "Finish", "r": rec.req(session), "saved": ok && item.s == table})
+		case "flush":
+			rec.add(map[string]any{"ev": "Flush"})
+		case "aged":
+			rec.add(map[string]any{"ev": "Aged", "ep": endpoint})
+		}
+	}
+}
+
+var c42YieldCtr atomic.Uint64
+
+func c42InstallYield(seed uint64, every uint64) {
+	if every == 0 {
+		bytecode.VerifYield = nil
+
+		return
+	}
+
+	bytecode.VerifYield = func(int32) {
+		x := (c42YieldCtr.Add(1) + seed) * 0x9E3779B97F4A7C15
+		x ^= x >> 29
+
+		if x%every == 0 {
+			runtime.Gosched()
+		} else if x%4099 == 0 {
+			time.Sleep(30 * time.Microsecond)
+		}
+	}
+}
+
+func TestVerifC42Concurrent(t *testing.T) {
+	out := vkEnv("VERIF_OUT", "")
+	if out == "" {
+		t.Skip("VERIF_OUT not set")
+	}
+
+	root := vkEnv("VERIF_SVCROOT", "")
+	runs, seed := vkEnvInt("VERIF_RUNS", 8), vkEnvInt("VERIF_SEED", 1)
+	nmax := vkEnvInt("VERIF_N", 16)
+
+	if err := c42Setup(root, vkEnv("VERIF_EGOPATH", "/repo")); err != nil {
+		t.Fatal(err)
+	}
+
+	tw, err := vkNewTrace(out)
+	if err != nil {
+		t.Fatal(err)
+	}
+	defer tw.Close()
+
+	shapes := make([]string, 0, len(c42Manifest))
+	for k := range c42Manifest {
+		shapes = append(shapes, k)
+	}
+
+	sortStrings(shapes)
+
+	rng := rand.New(rand.NewSource(int64(seed)))
+	procs := []int{1, 2, 4, 8}
+	yields := []uint64{0, 3, 7, 2}
+	defer runtime.GOMAXPROCS(runtime.GOMAXPROCS(0))
+
+	// which request indices fail is fixed for the whole log (the trace specification has one Bad set)
+	bad := map[int]bool{}
+	for i := 1; i <= nmax; i++ {
+		if rng.Intn(7) == 0 {
+			bad[i] = true
+		}
+	}
+
+	for run := 1; run <= runs; run++ {
+		key := shapes[run%len(shapes)]
+		svc := c42Manifest[key]
+		n := nmax
+
+		if run%3 == 0 {
+			n = nmax/2 + 1
+		}
+
+		runtime.GOMAXPROCS(procs[run%len(procs)])
+		c42InstallYield(uint64(seed*1000+run), yields[(run/2)%len(yields)])
+
+		VerifGate, VerifEvent = nil, nil
+
+		FlushServiceCache()
+
+		rt := router.NewRouter(fmt.Sprintf("c42t-%d", run))
+		if err := DefineLibHandlers(rt, root, "/services"); err != nil {
+			t.Fatal(err)
+		}
+
+		rec := &c42Rec{bySess: map[int]string{}}
+		c42InstallRecorder(rec, svc.Pattern)
+
+		ids, bads := []any{}, []any{}
+		reqs := map[string]*httptest.ResponseRecorder{}
+
+		var wg sync.WaitGroup
+
+		start := make(chan struct{})
+		flushes := 0
+
+		if run%2 == 0 {
+			flushes = 1 + rng.Intn(3)
+		}
+
+		warm := run%4 == 1 // one request first, alone: the batch then starts on a warm cache
+
+		for i := 1; i <= n; i++ {
+			id := fmt.Sprintf("r%d", i)
+			ids = append(ids, id)
+
+			if bad[i] {
+				bads = append(bads, id)
+			}
+
+			req, err := c42NewRequest(svc, id, bad[i])
+			if err != nil {
+				t.Fatal(err)
+			}
+
+			w := httptest.NewRecorder()
+			reqs[id] = w
+			delay := time.Duration(rng.Intn(400)) * time.Microsecond
+
+			serve := func() {
+				rt.ServeHTTP(w, req)
+
+				r := c42Response(w)
+				rec.add(map[string]any{"ev": "Resp", "r": id, "status": r["status"], "body": r["body"]})
+			}
+
+			if warm && i == 1 {
+				serve()
+
+				continue
+			}
+
+			wg.Add(1)
+
+			go func() {
+				defer wg.Done()
+				<-start
+				time.Sleep(delay)
+				serve()
+			}()
+		}
+
+		for f := 0; f < flushes; f++ {
+			delay := time.Duration(200+rng.Intn(3000)) * time.Microsecond
+
+			wg.Add(1)
+
+			go func() {
+				defer wg.Done()
+				<-start
+				time.Sleep(delay)
+				FlushServiceCache()
+			}()
+		}
+
+		close(start)
+		wg.Wait()
+
+		VerifGate, VerifEvent = nil, nil
+
+		svcKeys := []any{}
+		for _, k := range splitKey(key) {
+			svcKeys = append(svcKeys, k)
+		}
+
+		tw.Emit(map[string]any{"run": run, "ev": "Reset", "svc": svcKeys, "reqs": ids, "bad": bads,
+			"gomaxprocs": procs[run%len(procs)], "flushes": flushes})
+
+		for _, e := range rec.events {
+			e["run"] = run
+			tw.Emit(e)
+		}
+	}
+
+	bytecode.VerifYield = nil
+}
+
+func sortStrings(s []string) {
+	for i := 1; i < len(s); i++ {
+		for j := i; j > 0 && s[j] < s[j-1]; j-- {
+			s[j], s[j-1] = s[j-1], s[j]
+		}
+	}
+}
+
+func splitKey(k string) []string {
+	out, cur := []string{}, ""
+	for _, c := range k {
+		if c == '-' {
+			out = append(out, cur)
+			cur = ""
+		} else {
+			cur += string(c)
+		}
+	}
+
+	return append(out, cur)
+}
